@@ -210,6 +210,42 @@ theorem setCausal_covers (c : Cache) (ex : List Nat) (t : Tok) (h : Inv c) (hc :
       have := hcov j hj hs
       simp only [padRange]; omega
 
+/-! ### reserve passes (`StartForward(…, reserve = true)`) -/
+
+/-- a reserve pass changes neither the entries nor their data nor the range metadata -/
+theorem reserve_state (c : Cache) (b : List Tok) :
+    (startReserve c b).cells = c.cells ∧ (startReserve c b).rows = c.rows ∧ (startReserve c b).ranges = c.ranges ∧
+    abs (startReserve c b) = abs c ∧ (startReserve c b).except = [] := ⟨rfl, rfl, rfl, rfl, rfl⟩
+
+theorem reserve_inv (c : Cache) (b : List Tok) (h : Inv c) : Inv (startReserve c b) :=
+  ⟨h.len, h.cover, h.rmax, h.pad, h.size⟩
+
+theorem reserve_range (c : Cache) (b : List Tok) (h : Inv c) (hn : 0 < c.cells.length) :
+    (startReserve c b).curRange = ⟨0, c.cells.length - 1⟩ := by
+  have hpad := h.pad
+  have h1 := roundUp_le c.cells.length c.cachePad c.cells.length hpad.1 hpad.2 (Nat.le_refl _)
+  have h2 := roundUp_ge c.cells.length c.cachePad hpad.1
+  simp only [startReserve, padRange, roundDown]
+  rw [show c.cells.length - 1 + 1 = c.cells.length by omega]
+  congr 1
+  · simp
+  · omega
+
+/-- the mask of a reserve pass covers every sequence -/
+theorem reserve_covers (c : Cache) (b : List Tok) (h : Inv c) (hn : 0 < c.cells.length) (t : Tok) :
+    Covers (startReserve c b) t := by
+  unfold Covers
+  rw [reserve_range c b h hn]
+  exact ⟨by show c.cells.length - 1 < c.cells.length; omega, fun j hj _ => ⟨Nat.zero_le _, by
+    have : j < c.cells.length := hj
+    show j ≤ c.cells.length - 1; omega⟩⟩
+
+/-- **The mask of a reserve pass is exact** for every query (not only the batch's own tokens): it exposes
+    exactly the visible entries of the unchanged abstract state. -/
+theorem reserve_mask_exact (c : Cache) (b : List Tok) (h : Inv c) (hn : 0 < c.cells.length) (t : Tok) :
+    exposedEntries (startReserve c b) t = visible c.window (abs c) t.seq t.pos :=
+  mask_exact_of_covers (startReserve c b) t h.len (reserve_covers c b h hn t)
+
 theorem inv_defrag (c : Cache) (h : Inv c) : Inv (defrag c) :=
   defrag_inv c h (defragCore_moved _ _ _).1 (defragCore_moved _ _ _).2
 
@@ -418,12 +454,15 @@ inductive HOp where
   | cp (src dst : Nat) (len : Int)
   | rm (seq : Nat) (b e : Int)
   | sc (ex : List Nat)
+  /-- a reserve pass (worst-case graph reservation) -/
+  | rsv (b : List Tok)
 
 def stepH (c : Cache) : HOp → Cache
   | .fwd b ids => if (startForward c b).2 = .ok then put (startForward c b).1 ids else (startForward c b).1
   | .cp src dst len => Causal.copyPrefix c src dst len
   | .rm seq b e => (Causal.remove c seq b e).1
   | .sc ex => setCausal c ex
+  | .rsv b => startReserve c b
 
 /-- **The invariant holds along every history**: any interleaving of forward passes (accepted or
     rejected), prefix copies and removals (accepted, refused half-way, or unsupported). -/
@@ -441,6 +480,7 @@ theorem inv_run (c : Cache) (ops : List HOp) (h : Inv c) : Inv (ops.foldl stepH 
     | cp src dst len => exact copyPrefix_inv c src dst len h
     | rm seq b e => exact remove_inv c seq b e h
     | sc ex => exact setCausal_inv c ex h
+    | rsv b => exact reserve_inv c b h
 
 /-- **mask_exact after every history**: start from any initial configuration, run any history, then
     any batch that `StartForward` accepts is exposed exactly its visible history. -/
@@ -1213,6 +1253,7 @@ theorem stepH_v (c : Cache) (op : HOp) : (stepH c op).v = c.v := by
   | sc ex =>
     simp only [stepH, setCausal]
     split <;> rfl
+  | rsv b => rfl
 
 theorem run_v (c : Cache) (ops : List HOp) : (ops.foldl stepH c).v = c.v := by
   induction ops generalizing c with
@@ -1377,5 +1418,12 @@ example :
     freeCount (f14pre { fixDefrag := true }).cells = 3 ∧
     findStart (f14pre { fixDefrag := true }).cells 3 = none ∧
     (startForward (f14pre { fixDefrag := true }) [⟨0, 2⟩, ⟨0, 3⟩, ⟨0, 4⟩]).2 = .ok := by decide
+
+/-- non-vacuity of `reserve_mask_exact`: on the F14 state a reserve pass covers all 5 cells and shows the
+    query (seq 0, pos 1) the two live entries -/
+example :
+    (startReserve (f14pre {}) [⟨0, 0⟩, ⟨0, 1⟩]).curRange = ⟨0, 4⟩ ∧
+    (exposedEntries (startReserve (f14pre {}) [⟨0, 0⟩, ⟨0, 1⟩]) ⟨0, 1⟩).length = 2 ∧
+    0 < (f14pre {}).cells.length := by decide
 
 end OllamaVerif.C06
